@@ -308,14 +308,25 @@ func (f *FailLog) Failed(url string) int {
 
 // ---------------------------------------------------------------- stall detector
 
-// Stall measures how late a 20 ms sleeper wakes up: the largest lateness seen since the last Reset
-// tells whether the machine (or this process) was too slow for a time based judgement.
+// Stall measures how late a 20 ms sleeper wakes up and how long a small write + fsync in the data directory
+// takes (the hook queue is fsynced under its lock once per second): the largest value seen tells whether the
+// machine was too slow for a time based judgement.
 type Stall struct {
 	max  atomic.Int64
 	stop chan struct{}
 }
 
-func NewStall() *Stall {
+func (s *Stall) note(d time.Duration) {
+	for {
+		m := s.max.Load()
+		if int64(d) <= m || s.max.CompareAndSwap(m, int64(d)) {
+			return
+		}
+	}
+}
+
+// NewStall starts the probes; dir may be empty (no disk probe).
+func NewStall(dir string) *Stall {
 	s := &Stall{stop: make(chan struct{})}
 	go func() {
 		const step = 20 * time.Millisecond
@@ -328,16 +339,34 @@ func NewStall() *Stall {
 			}
 			time.Sleep(step)
 			now := time.Now()
-			late := now.Sub(last) - step
+			s.note(now.Sub(last) - step)
 			last = now
-			for {
-				m := s.max.Load()
-				if int64(late) <= m || s.max.CompareAndSwap(m, int64(late)) {
-					break
-				}
-			}
 		}
 	}()
+	if dir != "" {
+		go func() {
+			os.MkdirAll(dir, 0o755)
+			name := fmt.Sprintf("%s/stall-probe-%d", dir, time.Now().UnixNano())
+			f, err := os.Create(name)
+			if err != nil {
+				return
+			}
+			defer os.Remove(name)
+			defer f.Close()
+			for {
+				select {
+				case <-s.stop:
+					return
+				default:
+				}
+				t := time.Now()
+				f.WriteAt([]byte("x"), 0)
+				f.Sync()
+				s.note(time.Since(t))
+				time.Sleep(250 * time.Millisecond)
+			}
+		}()
+	}
 	return s
 }
 
